@@ -1475,6 +1475,11 @@ class ArgumentParser(ParserDeprecations, ActionsContainer, ArgumentLinking, argp
         elif hasattr(action, "_check_type"):
             with parser_context(parent_parser=self):
                 value = action._check_type_(value, cfg=cfg)  # type: ignore[attr-defined]
+        elif isinstance(action, (argparse._StoreTrueAction, argparse._StoreFalseAction)) and isinstance(value, str):
+            # a flag given as text, e.g. through its environment variable
+            if value.lower() not in {"true", "yes", "false", "no"}:
+                raise TypeError(f'Parser key "{key}": Expected a boolean but got: {value!r}')
+            value = value.lower() in {"true", "yes"}
         elif action.type is not None:
             try:
                 if action.nargs in {None, "?"} or action.nargs == 0:
